@@ -12,7 +12,8 @@ is a specification of the tokenizer on serializer output, NOT proved here agains
 (that is the xmltok package's subject); it is validated on every `xmlser` case against the real
 re-parse.
 
-DEFECT SWITCHES — `SerCfg.code` (all `false`) is the pinned tree; every flag is one proposed fix
+DEFECT SWITCHES — `SerCfg.code` (all `false`) is the pinned tree; every flag is one fix (all
+committed in /repo: eeda1d4, 4808426; the driver runs `SerCfg.current` = `SerCfg.fixed`)
 (DESIGN 1.3 item 15 and what was found next to it):
 * `attrsBeforeDecls`   start_elem registers the attribute names *before* it writes the xmlns
                        declarations (code: after — declarations for attribute prefixes never appear)
@@ -42,9 +43,9 @@ deriving Repr, DecidableEq
 def SerCfg.code : SerCfg := ⟨false, false, false, false, false⟩
 /-- all proposed fixes -/
 def SerCfg.fixed : SerCfg := ⟨true, true, true, true, true⟩
-/-- ***SWITCH***: what the driver (correspondence) runs; e.g.
-`{ SerCfg.code with attrsBeforeDecls := true }` once that fix is committed in /repo -/
-def SerCfg.current : SerCfg := SerCfg.code
+/-- ***SWITCH***: what the driver (correspondence) runs = what /repo does now: `SerCfg.code` until
+/repo commits eeda1d4 / 4808426, `SerCfg.fixed` since -/
+def SerCfg.current : SerCfg := SerCfg.fixed
 
 /-- the serializer's `NamespaceMap`: every value is `Some(ns)` there (`insert`, mod.rs:103-107) -/
 abbrev SMap := List (Option Str × Str)
@@ -199,8 +200,9 @@ deriving Repr, DecidableEq
 
 def LexCfg.code : LexCfg := ⟨TokCfg.code, false⟩
 def LexCfg.fixed : LexCfg := ⟨TokCfg.fixed, true⟩
-/-- ***SWITCH***: follows `TokCfg.current`; set `attrCRNormalised := true` once item 12 is fixed -/
-def LexCfg.current : LexCfg := ⟨TokCfg.current, false⟩
+/-- ***SWITCH***: follows `TokCfg.current`; `attrCRNormalised` is `true` since item 12 was fixed in
+/repo (commit 17c2245) -/
+def LexCfg.current : LexCfg := ⟨TokCfg.current, true⟩
 
 /-- input-stream preprocessing: CRLF and CR become LF -/
 def normalizeNewlines : Str → Str
